@@ -20,8 +20,8 @@ TEXT = {
  "C10": "values_in_range/min/max with the 4x2 bisect-side table: theorems pending; correspondence + oracle with endpoints on every step point for all 8 rows.",
  "C11": "slicer statistics and resample (repaired): theorems pending; correspondence + oracle.",
  "C12": "every_operation_returns_a_minimal_result, minimal_form_is_canonical, identical_decides_equality (iff), bool_is_true_exactly_for_the_constant_one, algebraic_identities_up_to_identical (7 identities). Minimality of scalar-path layering results is covered by the correspondence (raw step tables compared) rather than by a theorem.",
- "C13": "mutate-then-observe programs + object identity check; functional model (no sharing by construction): partial.",
- "C14": "model objects carry the two caches; histories of layer calls and queries; invariant theorem pending.",
+ "C13": "partial: frame rule on the model (a statement changes only its target register; reads and queries change no function; any program) is a theorem, but a functional model cannot exhibit numpy/pandas aliasing: 'results never share mutable state' is decided by mutate-then-observe programs (incl. in-place scalar layers at existing step points) and an object-identity check in the correspondence run.",
+ "C14": "the model carries both caches; every_statement_keeps_the_caches_valid (invariant, for every statement), caches_valid_after_any_history, answers_never_stale (a cached answer equals the one computed from the current function alone, after any program), queries_change_no_function. Correspondence: histories interleaving scalar/vector layers (incl. undo, step-free and partly undefined receivers) with the 12 query kinds.",
  "C15": "side rule and mismatch-iff theorems for all binary operators (scalars on either side), mask/where/fillna by a function, one-operand operations, clip, layering, tuple shorthands (never a mismatch). Collection aggregation, cov/corr, shift and resample are covered by the complete shapes x sides grid of the correspondence check.",
  "C16": "binary_operators_respect_denotation, one_operand_operations_respect_denotation, materialisation_is_invisible: results depend only on the denoted functions and closed sides (for the minimal, well-formed objects the public API produces). Construction routes, scalar types and compositions are exercised by programs run in four provenance / materialisation / scalar-type variants each against the one model result.",
  "C17": "every program replayed in 7 domain types (int, float, naive datetime, tz-aware fixed/DST/UTC, timedelta) against the one model run; the generic-domain theorems (all of C01, C03-C05 are stated for every Ord D) carry the order-only part.",
